@@ -135,6 +135,83 @@ mut("C20", "partition-unsorted", E + "FEM/_group_elem.py", "        elements = n
 mut("C20", "ghost-any-axis", E + "FEM/_mesher.py", "mask = np.isin(other_connect, nodes_arr).any(axis=1)", "mask = np.isin(other_connect, nodes_arr).all(axis=1)", "__Get_partitioned_groupElems")
 
 
+# --- generated behaviour-preserving edits: rename every local variable of an anchored function
+RENAME = [
+    ("C03", "EasyFEA.Simulations._simu._Simu.__Assemble_csr"), ("C03", "EasyFEA.Simulations._simu._Simu.__Get_csr_map"), ("C03", "EasyFEA.Simulations._simu._Simu.Assembly"),
+    ("C03", "EasyFEA.FEM._group_elem._GroupElem._Get_assembly_e"), ("C03", "EasyFEA.FEM._group_elem._GroupElem.Get_rows_e"),
+    ("C04", "EasyFEA.Simulations.Solvers.__Solver_1"), ("C04", "EasyFEA.Simulations.Solvers.__Solver_2"), ("C04", "EasyFEA.Simulations.Solvers._Solve_Axb"),
+    ("C04", "EasyFEA.Simulations._simu._Simu.Bc_dofs_known_unknown"), ("C04", "EasyFEA.Simulations._simu._Simu.__Solver_Get_Dirichlet_A_x"), ("C04", "EasyFEA.Simulations._simu._Simu._Solver_Apply_Dirichlet"), ("C04", "EasyFEA.Simulations._simu._Simu.Bc_vector_Dirichlet"),
+    ("C05", "EasyFEA.Simulations._simu._Simu._Solver_Apply_Neumann"), ("C05", "EasyFEA.Simulations._simu._Simu._Solver_Update_solutions"), ("C05", "EasyFEA.Simulations._simu._Simu._Solver_Evaluate_u_v_a_for_time_scheme"), ("C05", "EasyFEA.Simulations._simu._Simu._Solver_Get_K_C_M_coefs_for_time_scheme"),
+    ("C01", "EasyFEA.FEM._group_elem._GroupElem.Get_B_e_pg"), ("C01", "EasyFEA.FEM._group_elem._GroupElem.Get_F_e_pg"), ("C01", "EasyFEA.Models._utils.Project_Kelvin"),
+    ("C02", "EasyFEA.FEM.Operators.Bilinear.LinearizedElasticity"), ("C02", "EasyFEA.FEM.Operators.Bilinear.BeamShear"), ("C02", "EasyFEA.FEM.Operators.Bilinear.UV"),
+    ("C07", "EasyFEA.FEM._gauss.Gauss._Prism"), ("C07", "EasyFEA.FEM._gauss.Gauss.Gauss_factory"),
+    ("C08", "EasyFEA.FEM._group_elem._GroupElem.Get_pointsInElem"), ("C08", "EasyFEA.Geoms._utils._Rotation_matrix"), ("C08", "EasyFEA.Geoms._utils.Symmetry"),
+    ("C09", "EasyFEA.Simulations._simu._Simu.__Bc_Integration_Dim"), ("C09", "EasyFEA.Simulations._simu._Simu.add_surfLoad"), ("C09", "EasyFEA.Simulations._simu._Simu.__Bc_pressureload"), ("C09", "EasyFEA.Simulations._simu._Simu.__Bc_pointLoad"),
+    ("C10", "EasyFEA.FEM.Elems._beam._EulerBernoulli._Compute_P_e_pg"), ("C10", "EasyFEA.Models._utils.Get_Pmat"), ("C10", "EasyFEA.Models._utils.Apply_Pmat"),
+    ("C11", "EasyFEA.Models.Elastic._laws._Elastic._Apply_basis_transformation"), ("C11", "EasyFEA.Models.Elastic._laws.Anisotropic._Behavior"), ("C11", "EasyFEA.Models.Elastic._laws.TransverselyIsotropic._Behavior"), ("C11", "EasyFEA.Models.Elastic._laws.Isotropic._Behavior"),
+    ("C12", "EasyFEA.FEM._linalg.Inv"), ("C12", "EasyFEA.FEM._linalg.Det"), ("C12", "EasyFEA.FEM._linalg.FeArray._ddot_subscript"), ("C12", "EasyFEA.FEM._group_elem._GroupElem._Get_Mapping"),
+    ("C13", "EasyFEA.FEM._forms.BiLinearForm.Integrate_e"), ("C13", "EasyFEA.FEM._forms.LinearForm.Assemble"), ("C13", "EasyFEA.Simulations._weakforms.WeakForms.Construct_local_matrix_system"),
+    ("C14", "EasyFEA.FEM._mesh.Mesh.Rotate"), ("C14", "EasyFEA.Simulations._simu._Simu._Update"), ("C14", "EasyFEA.Simulations._simu._Simu.Get_K_C_M_F"),
+    ("C15", "EasyFEA.Simulations._simu._Simu.Get_results"), ("C15", "EasyFEA.Simulations._simu._Simu.Save_Iter"), ("C15", "EasyFEA.FEM._mesh.Mesh.Save"), ("C15", "EasyFEA.FEM._mesh.Load_Mesh"), ("C15", "EasyFEA.Simulations._phasefield.PhaseField.Set_Iter"), ("C15", "EasyFEA.Simulations._inelastic.InElastic.Save_Iter"),
+    ("C16", "EasyFEA.Simulations._elastic.Elastic.Result"), ("C16", "EasyFEA.Models._utils.__Result_in_Strain_or_Stress_field"), ("C16", "EasyFEA.FEM._mesh.Mesh.Get_Node_Values"), ("C16", "EasyFEA.Simulations._beam.Beam.Result"),
+    ("C17", "EasyFEA.Models._phasefield.PhaseField.__Split_Strain"), ("C17", "EasyFEA.Models._phasefield.PhaseField.__Split_Stress"), ("C17", "EasyFEA.Models._phasefield.PhaseField._Eigen_values_vectors_projectors"), ("C17", "EasyFEA.Simulations._phasefield.PhaseField.__Calc_psiPlus_e_pg"), ("C17", "EasyFEA.Models._phasefield.PhaseField.__Spectral_Decomposition"),
+    ("C18", "EasyFEA.Models.HyperElastic._laws.HolzapfelOgden.Compute_d2Wde"), ("C18", "EasyFEA.Models.HyperElastic._laws.NeoHookean.Compute_dWde"),
+    ("C19", "EasyFEA.Models.InElastic._behavior.Behavior.Integrate"), ("C19", "EasyFEA.Models.InElastic._behavior.Behavior.__Flow"), ("C19", "EasyFEA.Simulations._inelastic.InElastic.Construct_local_matrix_system"), ("C19", "EasyFEA.Simulations._inelastic.InElastic.Save_Iter"),
+    ("C20", "EasyFEA.Simulations._simu._Simu.Calc_Reaction"), ("C20", "EasyFEA.Simulations._simu._Simu.Calc_Energy"), ("C20", "EasyFEA.FEM._mesher.Mesher.__Get_partitioned_groupElems"), ("C20", "EasyFEA.FEM._mesh.Mesh.Merge"), ("C20", "EasyFEA.FEM._group_elem._GroupElem._Set_partitioned_data"),
+    ("C06", "EasyFEA.FEM._group_elem._GroupElem._Eval_Functions"), ("C06", "EasyFEA.FEM.Elems._tri.TRI6._N"), ("C06", "EasyFEA.FEM._group_elem._GroupElem.Get_dN_pg"),
+]
+
+
+def rename_locals_edit(repo_root, qualname):
+    """(file, old_text, new_text) renaming every local variable of the function (parameters kept)"""
+    import ast
+
+    sys.path.insert(0, HERE)
+    from sa.repo import Repo
+
+    repo = rename_locals_edit._repo.get(repo_root)
+    if repo is None:
+        repo = rename_locals_edit._repo[repo_root] = Repo(repo_root)
+    f = repo.functions.get(qualname)
+    if f is None:
+        return None
+    node = f.node
+    params = {a.arg for a in node.args.posonlyargs + node.args.args + node.args.kwonlyargs}
+    if node.args.vararg:
+        params.add(node.args.vararg.arg)
+    if node.args.kwarg:
+        params.add(node.args.kwarg.arg)
+    assigned = set()
+    for n in ast.walk(node):
+        if isinstance(n, ast.Name) and isinstance(n.ctx, ast.Store):
+            assigned.add(n.id)
+        elif isinstance(n, (ast.FunctionDef, ast.Lambda)) and n is not node:
+            a = n.args
+            params |= {x.arg for x in a.posonlyargs + a.args + a.kwonlyargs}
+        elif isinstance(n, ast.FunctionDef) and n is not node:
+            assigned.discard(n.name)
+    # nested function names are defined with FunctionDef, not Name: keep them
+    glob = {n.id for n in ast.walk(node) if isinstance(n, (ast.Global, ast.Nonlocal)) for n.id in getattr(n, "names", [])} if False else set()
+    targets = {x for x in assigned if x not in params and not x.startswith("__") and x != "_"}
+    import copy
+
+    new = copy.deepcopy(node)
+    for n in ast.walk(new):
+        if isinstance(n, ast.Name) and n.id in targets:
+            n.id = n.id + "_rn"
+    lines = f.module.source.splitlines(keepends=True)
+    start = min([node.lineno] + [d.lineno for d in node.decorator_list]) - 1
+    end = node.end_lineno
+    old = "".join(lines[start:end])
+    indent = " " * node.col_offset
+    body = ast.unparse(new)
+    new_text = "".join(indent + ln + "\n" if ln else "\n" for ln in body.split("\n"))
+    return f.file, old, new_text, len(targets)
+
+
+rename_locals_edit._repo = {}
+
+
 def apply_edit(root, e):
     path = os.path.join(root, e["file"])
     with open(path) as fh:
@@ -142,6 +219,8 @@ def apply_edit(root, e):
     n = src.count(e["old"])
     if n != 1:
         return False, f"anchor text occurs {n} times"
+    if e["old"] == e["new"]:
+        return False, "no local variable to rename"
     with open(path, "w") as fh:
         fh.write(src.replace(e["old"], e["new"]))
     return True, ""
@@ -179,6 +258,15 @@ def run(prop, repo_root="/repo", verbose=True):
     """returns 0 when every breaking edit of `prop` is detected and every preserving edit is silent"""
     props = None if prop in (None, "all") else {prop}
     jobs = [(e, True) for e in M if props is None or e["prop"] in props] + [(e, False) for e in S if props is None or e["prop"] in props]
+    for prop_r, qn in RENAME:
+        if props is not None and prop_r not in props:
+            continue
+        ed = rename_locals_edit(repo_root, qn)
+        if ed is None:
+            jobs.append((dict(prop=prop_r, id="rename:" + qn.split(".")[-1], file="?", old="\0missing", new=""), False))
+            continue
+        file, old, new, nvars = ed
+        jobs.append((dict(prop=prop_r, id=f"rename-locals({nvars}):" + ".".join(qn.split(".")[-2:]), file=file, old=old, new=new), False))
     if not jobs:
         print(f"selftest: no edits registered for {prop}")
         return 0
